@@ -36,7 +36,7 @@ def run(ck):
                 stim.append({"alg": "cbldm", "vals": g["vals"], "k": 2, "o": "diff", "d": dd, "d_default": False, "final_only": True})
     stim.append({"alg": "cbldm", "vals": [12, 4, 4, 2, 1, 1], "k": 2, "o": "diff", "d": 1, "d_default": False})
     rng = ck.rng
-    for i in range(60 if q else 1500):
+    for i in range(60 if q else 5000):
         n = rng.randint(4, 7)
         vals = [rng.randint(0, 30) for _ in range(n)]
         k = rng.randint(2, 3)
